@@ -38,6 +38,44 @@ def tower_bytes(t):
     return struct.pack("<H", len(t)) + b"".join(f.pack() for f in t)
 
 
+
+def many_floors(towers, floors):
+    """a well-formed reply of `towers` towers holding `floors` minimal unknown-protocol floors each (5 octets per floor), TCP floor last"""
+    from dpapi_ng import _epm as e
+    tb = struct.pack("<H", floors + 1) + b"\x01\x00\x21\x00\x00" * floors + e.TCPFloor(49664).pack()
+    return ndr64_reply([tb] * towers, 0)
+
+
+def scaling(ctx, small=(8, 1250), big=(8, 40000)):
+    """time proportional to size, measured: CPU seconds per floor for a reply 32 times larger must not be a multiple of the small reply's
+    (work done outside the interpreter — copies of the remaining reply per floor, say — shows in no step count, only here)"""
+    import time, gc
+    from dpapi_ng import _epm as e
+
+    def per_floor(shape):
+        stub = many_floors(*shape)
+        best = None
+        for _ in range(2):
+            gc.collect()
+            t0 = time.process_time()
+            res = e.EptMapResult.unpack(stub)
+            dt = time.process_time() - t0
+            best = dt if best is None else min(best, dt)
+            n = sum(len(t) for t in res.towers)
+            del res
+        return best / max(n, 1), len(stub), n
+    a, la, na = per_floor(small)
+    b, lb, nb = per_floor(big)
+    ratio = b / max(a, 1e-9)
+    ctx.count("scaling:floors_small", na)
+    ctx.count("scaling:floors_big", nb)
+    ctx.notes.append(f"ept_map reply scaling: {a * 1e6:.2f} µs/floor at {la} octets, {b * 1e6:.2f} µs/floor at {lb} octets (ratio {ratio:.2f})")
+    if ratio > 3.0:
+        ctx.violation("an ept_map reply is not processed in time proportional to its size (CPU time per floor grows with the reply)",
+                      {"scenario": "scaling", "small": list(small), "big": list(big), "len_small": la, "len_big": lb},
+                      f"{a * 1e6:.2f} µs/floor → {b * 1e6:.2f} µs/floor (×{ratio:.1f})", "about the same cost per floor (≤ ×3)")
+
+
 def run(ctx):
     from dpapi_ng import _client as cl, _epm as e
     from dpapi_ng import _rpc as r
@@ -121,6 +159,7 @@ def run(ctx):
             ctx.violation("an ept_map reply is not processed in time proportional to its size", {"reply": hx(stub)[:400], "len": len(stub)}, out, "terminates within 40·len+4000 line events")
     for i in range(0, len(cases), 2000):
         ctx.compare_batch(cases[i:i + 2000], nontrivial=lambda line, impl: True)
+    scaling(ctx)
 
 
 def search(ctx, broken, disagreements):
@@ -132,6 +171,11 @@ def replay(ctx, payload):
     from dpapi_ng import _rpc as r
     from dpapi_ng._rpc import _request
     v = payload["violation"]["input"]
+    if v.get("scenario") == "scaling":
+        n0 = len(ctx.violations)
+        scaling(ctx, tuple(v["small"]), tuple(v["big"]))
+        print(ctx.notes[-1])
+        return len(ctx.violations) == n0
     stub = bytes.fromhex(v["reply"].replace("-", ""))
     resp = _request.Response(header=r.PDUHeader(5, 0, r.PacketType.RESPONSE, r.PacketFlags(3), r.DataRep(), 0, 0, 1), sec_trailer=None, alloc_hint=0, context_id=0, cancel_count=0, stub_data=stub)
     out = budgeted(lambda: cl._process_ept_map_result(resp), str, len(stub))
